@@ -396,6 +396,10 @@ def get(kid):
     if m:
         kv = dict(x.split("=") for x in spec.split(","))
         return LemireExact(m.group(1), int(kv["q"]), int(kv["k"]), int(kv["bits"]) if "bits" in kv else None)
+    m = re.fullmatch(r"dragonbox_(f32|f64)", base)
+    if m:
+        kv = dict((x.split("=") + ["1"])[:2] for x in spec.split(","))
+        return Dragonbox(m.group(1), int(kv["E"]), int(kv["free"]) if "free" in kv else None, int(kv.get("hi", "0"), 0), shorter="shorter" in kv)
     k = copy.copy(KERNELS[base])
     k.kid = kid
     m = re.fullmatch(r"(\w+)(=|<|>)(-?\d+)", spec)
@@ -611,3 +615,187 @@ def _round_nearest_even(v, P):
     if eb >= INF:
         return (0, INF)
     return (fl - (1 << p), eb)
+
+
+# ------------------------------------------------------------------ Dragonbox (float -> shortest decimal)
+def _ilog10_rational(num, den):
+    """floor(log10(num/den))"""
+    import math
+    # estimate then fix
+    e = int((num.bit_length() - den.bit_length()) * 0.30103) - 2
+    while True:
+        # 10^(e+1) <= num/den ?
+        if e + 1 >= 0:
+            ok = num >= den * 10 ** (e + 1)
+        else:
+            ok = num * 10 ** (-(e + 1)) >= den
+        if ok:
+            e += 1
+        else:
+            break
+    return e
+
+
+class Dragonbox(ScalarKernel):
+    """compute_nearest_normal / compute_nearest_shorter for one binade (biased exponent E): the
+    returned decimal (D, k) (i) lies in the float's rounding interval (round-trips), (ii) no
+    shorter decimal lies in the interval, (iii) no neighbour D+-1 at the same length is strictly
+    closer, (iv) D has no trailing zero. Mantissa field: `free` low bits symbolic, the high
+    bits fixed to `hi` (cube bound); free = p means the whole binade."""
+
+    def __init__(self, f, E, free=None, hi=0, shorter=False):
+        P = FLOAT_PARAMS[f]
+        self.f, self.E, self.hi, self.shorter = f, E, hi, shorter
+        p = P["p"]
+        self.free = p if free is None else free
+        bits = 32 if f == "f32" else 64
+        fn = ("dbx_shorter_" if shorter else "dbx_normal_") + f
+        kid = "dragonbox_%s@E=%d%s" % (f, E, ",shorter" if shorter else ",free=%d,hi=%d" % (self.free, hi))
+        super().__init__(kid, fn, [("bits", "u%d" % bits)],
+                         "Dragonbox %s::<%s>, biased exponent %d%s: round-trip, shortest, closest, no trailing zero (exact integer oracle)"
+                         % ("compute_nearest_shorter" if shorter else "compute_nearest_normal", f, E,
+                            "" if shorter else ", low %d mantissa bits symbolic, high bits = %#x" % (self.free, hi)),
+                         feas_ms=60, timeout_s=150,
+                         funcs=["lexical_write_float::algorithm::" + ("compute_nearest_shorter" if shorter else "compute_nearest_normal") + "::<%s>" % f,
+                                "DragonboxFloat::{compute_mul, compute_mul_parity, compute_delta, check_div_pow10, divide_by_pow10, remove_trailing_zeros}",
+                                "table_dragonbox cache row for this binade"])
+        self.pre = self._pre
+        self.negpost = self._negpost
+        self.cases_fn = self._cases
+        self.nbits = bits
+
+    def _mrange(self):
+        p = FLOAT_PARAMS[self.f]["p"]
+        if self.shorter:
+            return 0, 0
+        lo = self.hi << self.free
+        hi = lo | ((1 << self.free) - 1)
+        return max(lo, 1), hi
+
+    def _pre(self, vs):
+        p = FLOAT_PARAMS[self.f]["p"]
+        b = vs["bits"]
+        n = self.nbits
+        pre = [z3.Extract(n - 1, p, b) == z3.BitVecVal(self.E, n - p)]
+        if self.shorter:
+            pre.append(z3.Extract(p - 1, 0, b) == 0)
+        else:
+            if self.free < p:
+                pre.append(z3.Extract(p - 1, self.free, b) == z3.BitVecVal(self.hi, p - self.free))
+            pre.append(z3.Extract(p - 1, 0, b) != 0)
+        return pre
+
+    def _cases(self, seed):
+        rnd = random.Random(seed * 13 + self.E)
+        lo, hi = self._mrange()
+        p = FLOAT_PARAMS[self.f]["p"]
+        ms = {lo, hi, (lo + hi) // 2}
+        for _ in range(6):
+            ms.add(rnd.randrange(lo, hi + 1))
+        return [[(self.E << p) | m] for m in sorted(ms)]
+
+    def _negpost(self, vs, ret):
+        P = FLOAT_PARAMS[self.f]
+        p, bias = P["p"], P["bias"]
+        E = self.E
+        b = vs["bits"]
+        m = z3.Extract(p - 1, 0, b)
+        D, k = ret.fields[0].t, ret.fields[1].t
+        if E == 0:
+            e2 = 1 - bias - p
+            hidden = 0
+        else:
+            e2 = E - bias - p
+            hidden = 1 << p
+        mlo, mhi = self._mrange()
+        Mlo, Mhi = hidden + mlo, hidden + mhi
+        W = 1400 if self.f == "f64" else 420
+        zM = z3.ZeroExt(W - p, m) + z3.BitVecVal(hidden, W)
+        zD = z3.ZeroExt(W - 64, D)
+        asym = self.shorter and E > 1
+        # value range of the binade slice -> candidate decimal exponents k
+        from fractions import Fraction
+        vmin = Fraction(Mlo) * Fraction(2) ** e2
+        vmax = Fraction(Mhi + 1) * Fraction(2) ** e2
+        maxdig = 17 if self.f == "f64" else 9
+        k_hi = _ilog10_rational(vmax.numerator, vmax.denominator) + 1
+        k_lo = _ilog10_rational(vmin.numerator, vmin.denominator) - maxdig
+        C = lambda x: z3.BitVecVal(x, W)
+        M_even = z3.Extract(0, 0, m) == 0
+        cases = []
+        for kk in range(k_lo, k_hi + 1):
+            # common scale: multiply every quantity by 2^a * 10^b with a = max(0, 2 - e2), b = max(0, -kk)
+            a = max(0, 2 - e2)
+            bb = max(0, -kk)
+            scale2 = lambda e: 1 << (e + a)                # 2^e scaled (e >= -2 suffices: e2-2 .. )
+            ten_k = 10 ** (kk + bb) << a                   # 10^kk scaled
+            ten_k1 = 10 ** (kk + 1 + bb) << a              # 10^(kk+1) scaled
+            sc = 10 ** bb
+            # interval endpoints (scaled): low = (2M-1)*2^(e2-1) or (4M-1)*2^(e2-2), high = (2M+1)*2^(e2-1), v = M*2^e2
+            if asym:
+                low = (zM * 4 - 1) * C(scale2(e2 - 2) * sc)
+            else:
+                low = (zM * 2 - 1) * C(scale2(e2 - 1) * sc)
+            high = (zM * 2 + 1) * C(scale2(e2 - 1) * sc)
+            v = zM * C(scale2(e2) * sc)
+            x = zD * C(ten_k)
+
+            def inside(t):
+                return z3.And(z3.Or(z3.ULT(low, t), z3.And(M_even, low == t)), z3.Or(z3.ULT(t, high), z3.And(M_even, t == high)))
+
+            def dist_lt(t1, t2):
+                # |t1 - v| < |t2 - v|
+                d1 = z3.If(z3.UGE(t1, v), t1 - v, v - t1)
+                d2 = z3.If(z3.UGE(t2, v), t2 - v, v - t2)
+                return z3.ULT(d1, d2)
+
+            rt = inside(x)
+            # (ii) a shorter candidate: some multiple of 10^(kk+1) inside the interval
+            Dp = z3.BitVec("Dshort", 64)
+            y = z3.ZeroExt(W - 64, Dp) * C(ten_k1)
+            shorter_exists = z3.And(z3.ULT(Dp, z3.BitVecVal(10 ** 18, 64)), inside(y))
+            # (iii) a strictly closer neighbour of the same length
+            xm, xp = x - C(ten_k), x + C(ten_k)
+            closer = z3.Or(z3.And(z3.UGE(zD, 1), inside(xm), dist_lt(xm, x)), z3.And(inside(xp), dist_lt(xp, x)))
+            good = z3.And(rt, z3.Not(shorter_exists), z3.Not(closer), z3.URem(D, z3.BitVecVal(10, 64)) != 0)
+            cases.append(z3.And(k == z3.BitVecVal(kk & 0xffffffff, 32), good))
+        return z3.Not(z3.Or(cases))
+
+    def violates(self, model, out):
+        from fractions import Fraction
+        P = FLOAT_PARAMS[self.f]
+        p, bias = P["p"], P["bias"]
+        bits = model.get("bits", 0)
+        E = (bits >> p) & ((1 << (self.nbits - 1 - p)) - 1)
+        m = bits & ((1 << p) - 1)
+        try:
+            D, k = [int(x) for x in out.split()]
+        except Exception:
+            return True
+        if E == 0:
+            M, e2 = m, 1 - bias - p
+        else:
+            M, e2 = (1 << p) + m, E - bias - p
+        two = Fraction(2)
+        v = M * two ** e2
+        high = (2 * M + 1) * two ** (e2 - 1)
+        low = (4 * M - 1) * two ** (e2 - 2) if (m == 0 and E > 1) else (2 * M - 1) * two ** (e2 - 1)
+        even = M % 2 == 0
+
+        def inside(t):
+            return (low < t or (even and low == t)) and (t < high or (even and t == high))
+        x = D * Fraction(10) ** k
+        if not inside(x) or D % 10 == 0:
+            return True
+        # shorter candidate?
+        step = Fraction(10) ** (k + 1)
+        import math
+        c = math.ceil(low / step)
+        for cand in (c - 1, c, c + 1):
+            if cand >= 0 and inside(cand * step):
+                return True
+        for nb in (D - 1, D + 1):
+            t = nb * Fraction(10) ** k
+            if nb >= 0 and inside(t) and abs(t - v) < abs(x - v):
+                return True
+        return False
